@@ -216,14 +216,33 @@ def count_obligations(vo_targets):
 
 
 def scan_forbidden():
-    """grep the development for Admitted/admit/Axiom/Parameter/... ; returns list of hits."""
+    """grep the development for Admitted/admit/Axiom/Parameter/... , for switched-off kernel checks, and for a
+    Variable / Hypothesis / Context declared outside a section (which declares an axiom); returns list of hits."""
     hits = []
-    pat = re.compile(r"\b(Admitted|admit|Axiom|Parameter|Conjecture|Unset Guard|bypass_check|Admit Obligations)\b")
-    for p in COQ.rglob("*.v"):
+    pat = re.compile(r"\b(Admitted|admit|Axiom|Axioms|Parameter|Parameters|Conjecture|Conjectures|Admit Obligations|bypass_check|"
+                     r"Unset Guard Checking|Unset Positivity Checking|Unset Universe Checking|Guard Checking|Positivity Checking|"
+                     r"Universe Checking|type-in-type|impredicative-set)\b")
+    decl = re.compile(r"^\s*(Local\s+|Global\s+|#\[[^\]]*\]\s*)*(Variable|Variables|Hypothesis|Hypotheses|Context)\b")
+    for p in sorted(COQ.rglob("*.v")):
         txt = re.sub(r"\(\*.*?\*\)", "", p.read_text(), flags=re.S)
+        sections = []
         for i, ln in enumerate(txt.splitlines(), 1):
             if pat.search(ln):
                 hits.append("%s:%d:%s" % (p.relative_to(COQ), i, ln.strip()))
+            m = re.match(r"^\s*Section\s+([A-Za-z_][A-Za-z0-9_']*)\s*\.", ln)
+            if m:
+                sections.append(m.group(1))
+                continue
+            m = re.match(r"^\s*End\s+([A-Za-z_][A-Za-z0-9_']*)\s*\.", ln)
+            if m and sections and sections[-1] == m.group(1):
+                sections.pop()
+                continue
+            if decl.match(ln) and not sections:
+                hits.append("%s:%d:%s (outside a section)" % (p.relative_to(COQ), i, ln.strip()))
+    for f in ("_CoqProject", "Makefile.conf"):
+        q = COQ / f
+        if q.exists() and re.search(r"type-in-type|impredicative-set|-noinit", q.read_text()):
+            hits.append("%s: forbidden coqc flag" % f)
     return hits
 
 
